@@ -712,6 +712,28 @@ func orientationPredicateRules(p *core.Program, r *core.Report) {
 	}
 	fn := mustFn(p, r, rf, "bigxy", "OrientationIndex")
 	if fn != nil {
-		decidedByFilterOrExactRule(p, r, "orientation-decided-by-filter-or-exact", fn, fn)
+		decidedByFilterOrExactRule(p, r, "orientation-decided-by-filter-or-exact", fn, exactStageOf(fn))
 	}
+}
+
+// exactStageOf: the function holding the big.Float arithmetic - OrientationIndex itself, or the helper of the
+// package it hands its three points to.
+func exactStageOf(fn *ssa.Function) *ssa.Function {
+	usesBig := func(f *ssa.Function) bool {
+		for _, c := range eng.Calls(f) {
+			if o := eng.CalleeObj(c); o != nil && o.Pkg() != nil && o.Pkg().Path() == "math/big" && (o.Name() == "Mul" || o.Name() == "Sub") {
+				return true
+			}
+		}
+		return false
+	}
+	if usesBig(fn) {
+		return fn
+	}
+	for _, c := range eng.Calls(fn) {
+		if h := eng.StaticCallee(c); h != nil && h.Pkg == fn.Pkg && len(h.Blocks) > 0 && usesBig(h) && sameArgs3(c, fn) {
+			return h
+		}
+	}
+	return fn
 }
